@@ -249,8 +249,10 @@ def symlink(R, ctx):
                 "or swaps its arguments", where=sb.loc())
     # every open of a log file except reopen goes through open_log_file
     opens = sorted({b2.path for b2 in f.fn_bodies() for bb, t in b2.calls() if callee_name(t) == 'std::fs::OpenOptions::open' and b2.file.startswith('src/writers/file_log_writer')})
-    R.check('R16.3', 'log-file-opens', set(opens) <= {'writers::file_log_writer::state::open_log_file', 'writers::file_log_writer::state::State::reopen_outputfile'},
-            "log files are opened only in open_log_file and reopen_outputfile", f"log file opened elsewhere: {opens}", where=None)
+    OPENERS = {'writers::file_log_writer::state::open_log_file', 'writers::file_log_writer::state::State::reopen_outputfile'}
+    stray = [o for o in opens if not only_called_from(ctx.cg, root_fn(o), OPENERS)]
+    R.check('R16.3', 'log-file-opens', not stray,
+            "log files are opened only in open_log_file and reopen_outputfile (or private helpers called from nowhere else)", f"log file opened elsewhere: {stray}", where=None)
 
 
 def selectors(R, ctx):
